@@ -10,6 +10,7 @@ pub mod c03_common;
 pub mod client_blocking;
 pub mod server_blocking;
 pub mod fleet_blocking;
+pub mod frames;
 pub mod hostile;
 pub mod peers;
 pub mod registry_tree;
@@ -44,6 +45,7 @@ pub fn all() -> &'static [Family] {
         v.extend(ws_client::families());
         v.extend(ws_dispatch::families());
         v.extend(svs_async::families());
+        v.extend(frames::families());
         v
     })
 }
